@@ -483,6 +483,24 @@ def _type_check_array_size(array_type, source_file_name, errors):
         )
 
 
+def _type_check_enum_value(enum_value, source_file_name, errors):
+    # An enum value may be given as an integer or as (an alias of) another enum
+    # value, but not as a boolean or any other type.
+    if ir_data_utils.reader(enum_value.value).type.which_type not in (
+        "integer",
+        "enumeration",
+    ):
+        errors.append(
+            [
+                error.error(
+                    source_file_name,
+                    enum_value.value.source_location,
+                    "Enum value must be an integer.",
+                )
+            ]
+        )
+
+
 def _type_check_field_location(location, source_file_name, errors):
     _type_check_integer(location.start, source_file_name, errors, "Start of field")
     _type_check_integer(location.size, source_file_name, errors, "Size of field")
@@ -642,6 +660,12 @@ def check_types(ir):
         ir,
         [ir_data.ArrayType],
         _type_check_array_size,
+        parameters={"errors": errors},
+    )
+    traverse_ir.fast_traverse_ir_top_down(
+        ir,
+        [ir_data.EnumValue],
+        _type_check_enum_value,
         parameters={"errors": errors},
     )
     traverse_ir.fast_traverse_ir_top_down(
